@@ -4,9 +4,11 @@
 //!   base   : ()            no base            | (bytes)  RouteDefs::new_with_base
 //!   routes : (route ..)    1..6 siblings (a real tuple of that arity)
 //!   route  : (seg 0)       NestedRoute::new(seg, view)
-//!          | (seg 1 (route ..))   .child(<tuple of 1..6 routes>)
+//!          | (seg 1 (route ..))   .child(<tuple of 1..12 routes>)
+//!          | (seg 2 (route ..))   .child(StaticVec::from(vec![routes ..]))
 //!   seg    : (0 bytes) StaticSegment | (1 name) ParamSegment | (2 name) OptionalParamSegment
-//!          | (3 name) WildcardSegment | (4) () | (5 (seg ..)) tuple of 1..6 segments
+//!          | (3 name) WildcardSegment | (4) () | (5 (seg ..)) tuple of 1..12 segments
+//!   a 5th element `1` in the case makes the top-level siblings a StaticVec instead of a tuple
 //!   path   : bytes (valid UTF-8)
 //!
 //! observation : (base flat expanded match nested)
@@ -33,11 +35,25 @@ use std::{
     panic::{catch_unwind, AssertUnwindSafe},
     sync::Mutex,
 };
+use leptos::tachys::view::iterators::StaticVec;
 use vsexp::{Lst, Num, Sexp};
 
 // ---------------------------------------------------------------- segments
 /// One value of this enum is one real leptos_router segment (or a real tuple of
 /// them); the enum only forwards the trait calls.
+macro_rules! segty {
+    ($i:tt) => {
+        Seg
+    };
+}
+macro_rules! segs {
+    ($($i:tt)*) => { ( $( segty!($i), )* ) };
+}
+/// a tuple whose components are successive results of `$next()`
+macro_rules! tup {
+    ($next:ident; $($i:tt)*) => { ( $( { let _ = $i; $next() }, )* ) };
+}
+
 #[derive(Debug, Clone)]
 enum Seg {
     S(StaticSegment<&'static str>),
@@ -51,6 +67,12 @@ enum Seg {
     T4(Box<(Seg, Seg, Seg, Seg)>),
     T5(Box<(Seg, Seg, Seg, Seg, Seg)>),
     T6(Box<(Seg, Seg, Seg, Seg, Seg, Seg)>),
+    T7(Box<segs!(1 2 3 4 5 6 7)>),
+    T8(Box<segs!(1 2 3 4 5 6 7 8)>),
+    T9(Box<segs!(1 2 3 4 5 6 7 8 9)>),
+    T10(Box<segs!(1 2 3 4 5 6 7 8 9 10)>),
+    T11(Box<segs!(1 2 3 4 5 6 7 8 9 10 11)>),
+    T12(Box<segs!(1 2 3 4 5 6 7 8 9 10 11 12)>),
 }
 
 macro_rules! fwd {
@@ -82,6 +104,30 @@ macro_rules! fwd {
                 $e
             }
             Seg::T6(b) => {
+                let $x = &**b;
+                $e
+            }
+            Seg::T7(b) => {
+                let $x = &**b;
+                $e
+            }
+            Seg::T8(b) => {
+                let $x = &**b;
+                $e
+            }
+            Seg::T9(b) => {
+                let $x = &**b;
+                $e
+            }
+            Seg::T10(b) => {
+                let $x = &**b;
+                $e
+            }
+            Seg::T11(b) => {
+                let $x = &**b;
+                $e
+            }
+            Seg::T12(b) => {
                 let $x = &**b;
                 $e
             }
@@ -142,6 +188,12 @@ fn build_seg(s: &Sexp) -> Seg {
                     next(),
                     next(),
                 ))),
+                7 => Seg::T7(Box::new(tup!(next; 1 2 3 4 5 6 7))),
+                8 => Seg::T8(Box::new(tup!(next; 1 2 3 4 5 6 7 8))),
+                9 => Seg::T9(Box::new(tup!(next; 1 2 3 4 5 6 7 8 9))),
+                10 => Seg::T10(Box::new(tup!(next; 1 2 3 4 5 6 7 8 9 10))),
+                11 => Seg::T11(Box::new(tup!(next; 1 2 3 4 5 6 7 8 9 10 11))),
+                12 => Seg::T12(Box::new(tup!(next; 1 2 3 4 5 6 7 8 9 10 11 12))),
                 n => panic!("unsupported tuple arity {n}"),
             }
         }
@@ -154,11 +206,17 @@ fn build_route(r: &Sexp) -> AnyNestedRoute {
     let seg = build_seg(r.at(0));
     // NestedRoute::new takes the next id: pre-order numbering
     let route = NestedRoute::new(seg, || ());
-    if r.at(1).num() == 0 {
-        route.into_any_nested_route()
-    } else {
-        route.child(build_siblings(r.at(2))).into_any_nested_route()
+    match r.at(1).num() {
+        0 => route.into_any_nested_route(),
+        2 => route.child(build_static_vec(r.at(2))).into_any_nested_route(),
+        _ => route.child(build_siblings(r.at(2))).into_any_nested_route(),
     }
+}
+
+/// `StaticVec<AnyNestedRoute>` (tachys::view::iterators), which also implements MatchNestedRoutes
+fn build_static_vec(l: &Sexp) -> AnyNestedRoute {
+    let v: Vec<AnyNestedRoute> = l.list().iter().map(build_route).collect();
+    StaticVec::from(v).into_any_nested_route()
 }
 
 /// a real tuple `(A,)`, `(A, B)`, .. of the given routes (erased afterwards)
@@ -174,6 +232,12 @@ fn build_siblings(l: &Sexp) -> AnyNestedRoute {
         5 => (next(), next(), next(), next(), next()).into_any_nested_route(),
         6 => (next(), next(), next(), next(), next(), next())
             .into_any_nested_route(),
+        7 => tup!(next; 1 2 3 4 5 6 7).into_any_nested_route(),
+        8 => tup!(next; 1 2 3 4 5 6 7 8).into_any_nested_route(),
+        9 => tup!(next; 1 2 3 4 5 6 7 8 9).into_any_nested_route(),
+        10 => tup!(next; 1 2 3 4 5 6 7 8 9 10).into_any_nested_route(),
+        11 => tup!(next; 1 2 3 4 5 6 7 8 9 10 11).into_any_nested_route(),
+        12 => tup!(next; 1 2 3 4 5 6 7 8 9 10 11 12).into_any_nested_route(),
         n => panic!("unsupported sibling count {n}"),
     }
 }
@@ -221,7 +285,11 @@ pub fn run(c: &Sexp) -> Sexp {
 
     // ids handed out from here on are consecutive (mod 2^16)
     let first_id = raw_id(RouteMatchId::new_from_route_id()).wrapping_add(1);
-    let children = build_siblings(routes);
+    let children = if c.at(4).num() == 1 {
+        build_static_vec(routes)
+    } else {
+        build_siblings(routes)
+    };
     let defs = match base.list().first() {
         None => RouteDefs::new(children.clone()),
         Some(b) => RouteDefs::new_with_base(children.clone(), text(b)),
